@@ -119,6 +119,8 @@ CASES += [
  ("C09sim", "knn/item.py", "        counts[i - start] = c\n", "        counts[i - start - 1] = c\n", "break"),
  ("C01ptr", "data/relationships.py", "        row_sizes[np.asarray(rsz_nums) + 1] = rsz_counts", "        row_sizes[np.asarray(rsz_nums)] = rsz_counts", "break"),
  ("C01ptr", "data/relationships.py", "        table = table.sort_by([(c, \"ascending\") for c in e_cols])\n", "", "break"),
+ ("C19lin", "stochastic/_ranker.py", "        scores = scores[valid_mask] * self.config.scale", "        scores = scores[valid_mask]", "break"),
+ ("C19lin", "stochastic/_ranker.py", "        scores = scores[valid_mask] * self.config.scale", "        scores = scores * self.config.scale", "break"),
  ("C19lin", "stochastic/_ranker.py", "        keys /= np.maximum(weights, np.finfo(\"f4\").smallest_normal)", "        keys *= np.maximum(weights, np.finfo(\"f4\").smallest_normal)", "break"),
  ("C19lin", "stochastic/_ranker.py", "        keys /= np.maximum(weights, np.finfo(\"f4\").smallest_normal)", "        keys /= weights", "break"),
  ("C19lin", "stochastic/_ranker.py", "        picked = argtopn(keys, n)\n        return ItemList(valid_items[picked], ordered=True)", "        picked = argtopn(keys, n)\n        return ItemList(valid_items[picked], ordered=False)", "break"),
